@@ -22,6 +22,7 @@ import (
 	"github.com/git-lfs/git-lfs/v3/tools"
 	"github.com/git-lfs/git-lfs/v3/tq"
 	"github.com/git-lfs/git-lfs/v3/tr"
+	"github.com/git-lfs/git-lfs/v3/verifhook"
 )
 
 // Populate man pages
@@ -219,6 +220,7 @@ func Print(format string, args ...interface{}) {
 // Exit prints a formatted message and exits.
 func Exit(format string, args ...interface{}) {
 	Error(format, args...)
+	verifhook.Exit(2)
 	os.Exit(2)
 }
 
@@ -264,6 +266,7 @@ func LoggedError(err error, format string, args ...interface{}) {
 // a log file before exiting.
 func Panic(err error, format string, args ...interface{}) {
 	LoggedError(err, format, args...)
+	verifhook.Exit(2)
 	os.Exit(2)
 }
 
